@@ -100,11 +100,17 @@ def _pure_pattern(purity, pat, depth=0):
     return r
 
 
+def _vname(n):
+    """a local's name, with the plugin's per-name variable number when the function has several variables of that name (different scopes)"""
+    v = n.get("vid")
+    return n["name"] if not v or v == 1 else "%s@%d" % (n["name"], v)
+
+
 def _lname(fn, nid, depth=0):
     """name of the local storage an lvalue expression denotes: a local / parameter, or a plain member path of it ('info.next', 'pos.info.cur')"""
     n = fn.nodes[nid]
     if n["k"] == "ref" and n.get("dk") in ("local", "param"):
-        return n["name"]
+        return _vname(n)
     if n["k"] == "member" and not n.get("t", "").startswith("std::atomic") and depth < 4:
         k = fn.kids(nid)
         if k and not n.get("arrow"):
@@ -138,9 +144,9 @@ def _cycle_locals(fn, cyc, purity):
             k = fn.kids(e)
             if n["k"] == "decl":
                 for v in n["vars"]:
-                    declared_on_cycle.add(v["name"])
+                    declared_on_cycle.add(_vname(v))
                     if "init" in v:
-                        defs.setdefault(v["name"], []).append(v["init"])
+                        defs.setdefault(_vname(v), []).append(v["init"])
             elif n["k"] == "bin" and n["op"].endswith("=") and n["op"] not in ("==", "!=", "<=", ">="):
                 nm = _lname(fn, k[0]) if k else None
                 if nm:
@@ -180,8 +186,8 @@ def _cycle_locals(fn, cyc, purity):
         k = fn.kids(e)
         if n["k"] == "decl":
             for v in n["vars"]:
-                if v["name"] in defs and "init" in v and v["init"] not in cyc_events:
-                    outside.setdefault(v["name"], []).append(v["init"])
+                if _vname(v) in defs and "init" in v and v["init"] not in cyc_events:
+                    outside.setdefault(_vname(v), []).append(v["init"])
         elif n["k"] == "bin" and n["op"] == "=" and k and _lname(fn, k[0]) in defs and len(k) > 1:
             outside.setdefault(_lname(fn, k[0]), []).append(k[1])
         elif n["k"] == "call" and n.get("member") and n.get("callee", "").endswith("operator=") and k and _lname(fn, k[0]) in defs and len(k) > 1:
@@ -233,7 +239,7 @@ def _cycle_locals(fn, cyc, purity):
 
 
 def fn_is_param(fn, nm):
-    return "." not in nm and any(p["name"] == nm for p in fn.params)
+    return "." not in nm and "@" not in nm and any(p["name"] == nm for p in fn.params)
 
 
 def _cond_invariant(fn, cond, variant, purity):
